@@ -429,8 +429,9 @@ def registration_check(prop):
                     ok = a[4] in ('EvictionPolicy::%s' % variant, 'EvictionPolicy::from("%s")' % attrs['policy'])
                     checks.append(('policy_as_written', ok, 'constructor policy argument %r vs attribute policy = %r' % (a[4], attrs['policy']), ['C07', 'C08']))
                 fw = attrs.get('frequency_weight')
-                want_fw = 'Some(%sf64)' % fw if fw else 'None'
-                checks.append(('frequency_weight_as_written', a[6] == want_fw, 'constructor frequency_weight argument %r vs attribute %r' % (a[6], fw), ['C08']))
+                mfw = re.fullmatch(r'Some\(([0-9.]+)f64\)', a[6])
+                fw_ok = (a[6] == 'None') if not fw else bool(mfw and float(mfw.group(1)) == float(fw))
+                checks.append(('frequency_weight_as_written', fw_ok, 'constructor frequency_weight argument %r vs attribute %r' % (a[6], fw), ['C08']))
             # the key is computed ONCE, before the lookup, and that value is used for the store (a key rebuilt after the body would
             # differ when the body changes something that takes part in the key: `&mut self`, interior mutability)
             nkeys = len(re.findall(r'\blet\s+__key\s*=', info['tail']))
